@@ -89,6 +89,11 @@ NCol(M) == Len(M[1])
 Col(M, j) == SeqOf(LAMBDA i : M[i][j], NRow(M))
 MissingCount(M) == Cardinality({<<i, j>> \in (1..NRow(M)) \X (1..NCol(M)) : M[i][j] = MISSING})
 WellFormed(M) == \A j \in 1..NCol(M) : Nn(Col(M, j)) >= 2
+\* a column with fewer than two present cells has no sample spread: outside the property's quantifier (deleting its MISSING
+\* cells leaves a matrix with fewer than 2 rows).  The total extension used for the EXTRA (out-of-statement) part of the trace
+\* specification: x - mean is 0 for the only present cell, so the column counts as "without spread" and must come out as exact,
+\* finite zeros with finite stored vectors
+Degenerate(x) == Nn(x) < 2
 Fit(M, type) == LET fc == SeqOf(LAMBDA j : FitCol(Col(M, j), type), NCol(M)) IN
                 [avg |-> SeqOf(LAMBDA j : fc[j].avg, NCol(M)),
                  sp  |-> SeqOf(LAMBDA j : fc[j].sp, NCol(M)),
@@ -182,12 +187,31 @@ ThAffine(C) == \A j \in Cols : LET y == Stats(Col(Img(X, 2), j)) z == Stats(Col(
                 /\ LET m == MeanS(z) IN RLe(RI(5), m) /\ RLt(m, RI(6))
 \* (T8) tensor = per-block matrix (checked on the two-block tensor <<X, Img(X, 2)>>)
 ThTensor(F) == LET T == <<X, Img(X, 2)>> TF == TensorFit(T, type) IN TF[1] = F /\ TF[2] = Fit(Img(X, 2), type)
+\* (T9) the transform does not depend on the unit the column is measured in (justifies recording columns on the grids
+\*      2^-e and 1/q, q = 10, 3, 1000, 7, 49 ..., classes K4/K5): for x -> k x the average scales with k, scale^p with k^2
+\*      (sdev^2, rms^2, Pareto scale^4 = Var) resp. k (range, mean), the zero-scale verdict and the signs are unchanged, and the
+\*      transformed value is unchanged except for centring only (k) and Pareto (t^4 scales with k^2, i.e. t with sqrt(k))
+ScaleCol(x, k) == SeqOf(LAMBDA i : IF x[i] = MISSING THEN MISSING ELSE k * x[i], Len(x))
+ThUnitFree(C) == \A j \in Cols : \A k \in {3, 10} :
+                LET D  == FitCol(ScaleCol(Col(X, j), k), type)
+                    es == CASE type \in {1, 2, 3} -> 2 [] type \in {4, 5} -> 1 [] OTHER -> 0
+                    et == CASE type <= 0 -> 1 [] type = 3 -> 2 [] OTHER -> 0
+                IN /\ D.avg = RMul(RI(k), C[j].avg)
+                   /\ D.sp = RMul(RPow(RI(k), es), C[j].sp)
+                   /\ D.zero = C[j].zero /\ D.sg = C[j].sg
+                   /\ \A i \in Rows : D.tp[i] = RMul(RPow(RI(k), et), C[j].tp[i])
+\* (T10) a column is transformed on its own: a constant or duplicated column among informative ones changes nothing for
+\*       the others (class K8) - the fit of the matrix is the column-wise fit, and equal columns get equal results
+ThColumnLocal(F, C) == /\ \A j \in Cols : F.avg[j] = C[j].avg /\ F.sp[j] = C[j].sp /\ \A i \in Rows : F.tp[i][j] = C[j].tp[i]
+                       /\ \A j, k \in Cols : Col(X, j) = Col(X, k) => C[j] = C[k]
+\* (T11) rows carrying the same values get the same transformed values (duplicate rows, ties; class K8)
+ThTies(C) == \A j \in Cols : \A i, k \in Rows : X[i][j] = X[k][j] => C[j].tp[i] = C[j].tp[k] /\ C[j].sg[i] = C[j].sg[k]
 Theorems == LET C == SeqOf(LAMBDA j : FitCol(Col(X, j), type), NCol(X)) IN
             IF v # 0 THEN ThMeansZero(C)
             ELSE LET F == Fit(X, type) IN
                  /\ ThMeansZero(C) /\ ThMeansZeroP1(F) /\ ThUnitSdev(F, C) /\ ThRms(F, C) /\ ThPareto(F, C) /\ ThRange(F, C)
                  /\ ThLevel(F, C) /\ ThCentreOnly(F, C) /\ ThZeroSpread(F, C) /\ ThApplySame(F) /\ ThNewRows(F, C)
-                 /\ ThMissing(C) /\ ThAffine(C) /\ ThTensor(F)
+                 /\ ThMissing(C) /\ ThAffine(C) /\ ThTensor(F) /\ ThUnitFree(C) /\ ThColumnLocal(F, C) /\ ThTies(C)
 
 (* ---------- emission of the case with its exact expected result ---------- *)
 CaseRec == LET Y == Img(X, v)
